@@ -828,8 +828,99 @@ def gen_sections(repo):
         "Definition gen_dparams : dparams := mkDparams %s %s %s." % (init, invert, key_is_other), ""])
 
 
+def gen_services(repo):
+    """the six run() loops as `loop` records of kit/LoopIR.v: `prelude; while True: <body with exactly one top-level
+    await trio.sleep(e)>`; the sleep must be the first or the last statement of the loop body"""
+    def src(e):
+        return ast.unparse(e).replace(" ", "")
+
+    def fail(what, node=None):
+        raise TranslationError("services: %s%s" % (what, " (line %d)" % node.lineno if node is not None and hasattr(node, "lineno") else ""))
+
+    def aexpr(e, aliases):
+        t = aliases.get(src(e), src(e))
+        if t == "self.interval":
+            return "AInterval"
+        if t == "self.window":
+            return "AWindow"
+        if isinstance(e, ast.Constant) and type(e.value) is int:
+            return "(AConst (%d))" % e.value
+        fail("unsupported duration %s" % src(e), e)
+
+    SPEC = [("linear", "controller/linear.py", "LinearController", "regulate"),
+            ("relative", "controller/relative_supply.py", "RelativeSupplyController", "regulate"),
+            ("switch", "controller/switch.py", "DemandSwitch", "regulate"),
+            ("stepwise", "controller/stepwise.py", "Stepwise", "stepwise"),
+            ("buffer", "decorator/buffer.py", "Buffer", "buffer"),
+            ("factory", "composite/factory.py", "FactoryPool", "factory")]
+    out = ["(* GENERATED on every run by py2coq from the run() methods of the six shipped services -- do not edit *)",
+           "From Coq Require Import ZArith.",
+           "From Cobald Require Import kit.LoopIR.", "Open Scope Z_scope.", ""]
+    for key, rel, cls, kind in SPEC:
+        with open(os.path.join(repo, "src", "cobald", rel)) as fh:
+            tree = ast.parse(fh.read())
+        fn = find_function(tree, "run", cls=cls)
+        if not isinstance(fn, ast.AsyncFunctionDef) or [a.arg for a in fn.args.args] != ["self"]:
+            fail("%s.run: async def run(self)" % cls, fn)
+        b = [x for x in fn.body if not (isinstance(x, ast.Expr) and isinstance(x.value, ast.Constant))]
+        if not b or not isinstance(b[-1], ast.While) or src(b[-1].test) != "True" or b[-1].orelse:
+            fail("%s.run: ends in `while True:`" % cls, fn)
+        aliases = {}
+        for x in b[:-1]:
+            if not (isinstance(x, ast.Assign) and len(x.targets) == 1 and isinstance(x.targets[0], ast.Tuple) and isinstance(x.value, ast.Tuple)
+                    and len(x.targets[0].elts) == len(x.value.elts)):
+                fail("%s.run: prelude must be `a, b = self.x, self.y`" % cls, x)
+            for t, v in zip(x.targets[0].elts, x.value.elts):
+                if not isinstance(t, ast.Name) or not src(v).startswith("self.") or any(isinstance(n, ast.Call) for n in ast.walk(v)):
+                    fail("%s.run: prelude binds plain attributes of self" % cls, x)
+                aliases[t.id] = src(v)
+        w = list(b[-1].body)
+        if sum(isinstance(n, ast.Await) for x in w for n in ast.walk(x)) != 1:
+            fail("%s.run: exactly one await per iteration" % cls, fn)
+
+        def is_sleep(x):
+            return (isinstance(x, ast.Expr) and isinstance(x.value, ast.Await) and isinstance(x.value.value, ast.Call)
+                    and src(x.value.value.func) == "trio.sleep" and len(x.value.value.args) == 1 and not x.value.value.keywords)
+        if is_sleep(w[0]) and len(w) > 1:
+            first, sleep, rest = "true", w[0], w[1:]
+        elif is_sleep(w[-1]) and len(w) > 1:
+            first, sleep, rest = "false", w[-1], w[:-1]
+        else:
+            fail("%s.run: the sleep must be the first or the last statement of the loop body" % cls, fn)
+        period = aexpr(sleep.value.value.args[0], aliases)
+        if kind == "regulate":
+            c = rest[0].value if len(rest) == 1 and isinstance(rest[0], ast.Expr) else None
+            if not (isinstance(c, ast.Call) and src(c.func) == "self.regulate" and len(c.args) == 1 and not c.keywords):
+                fail("%s.run: body must be self.regulate(<duration>)" % cls, fn)
+            body = "(BRegulate %s)" % aexpr(c.args[0], aliases)
+        elif kind == "stepwise":
+            ok = (len(rest) == 3 and src(rest[0]) == "current_rule=self._selector.get_rule(target.supply)"
+                  and src(rest[1]) == "demand=current_rule(target,interval)" and isinstance(rest[2], ast.If) and not rest[2].orelse
+                  and src(rest[2].test) == "demandisnotNone" and [src(x) for x in rest[2].body] == ["self.target.demand=demand"]
+                  and aliases.get("target") == "self.target" and aliases.get("interval") == "self.interval")
+            if not ok:
+                fail("Stepwise.run: select by target.supply, call the rule with (target, interval), write unless None", fn)
+            body = "BStepwise"
+        elif kind == "buffer":
+            i = rest[0] if len(rest) == 1 else None
+            ok = (isinstance(i, ast.If) and not i.orelse and [src(x) for x in i.body] == ["self.target.demand=self.demand"]
+                  and isinstance(i.test, ast.Compare) and len(i.test.ops) == 1 and isinstance(i.test.ops[0], (ast.NotEq, ast.Eq))
+                  and {src(i.test.left), src(i.test.comparators[0])} == {"self.demand", "self.target.demand"})
+            if not ok:
+                fail("Buffer.run: if self.demand != self.target.demand: self.target.demand = self.demand", fn)
+            body = "(BBufferFlush %s)" % ("true" if isinstance(i.test.ops[0], ast.NotEq) else "false")
+        else:
+            ok = (len(rest) == 2 and src(rest[0]) in ("supply,demand=(self.supply,self.demand)", "supply,demand=self.supply,self.demand")
+                  and isinstance(rest[1], ast.If) and len(rest[1].body) == 1 and len(rest[1].orelse) == 1)
+            if not ok:
+                fail("FactoryPool.run: read supply and demand, then one if/else (gen_factory transcribes it)", fn)
+            body = "BFactoryAdjust"
+        out.append("Definition gen_loop_%s : loop := mkLoop %s %s %s." % (key, first, period, body))
+    return "\n".join(out) + "\n"
+
+
 UNITS = {"Gen_registry.v": gen_registry, "Gen_standardiser.v": gen_standardiser, "Gen_controllers.v": gen_controllers, "Gen_guard.v": gen_guard,
-         "Gen_composite.v": gen_composite, "Gen_factory.v": gen_factory, "Gen_decorators.v": gen_decorators, "Gen_sections.v": gen_sections}
+         "Gen_composite.v": gen_composite, "Gen_factory.v": gen_factory, "Gen_decorators.v": gen_decorators, "Gen_sections.v": gen_sections, "Gen_services.v": gen_services}
 
 
 def regen(repo, gendir, names=None):
